@@ -1236,6 +1236,7 @@ func init() {
 	specs = append(specs, reconOpSpecs...)
 	specs = append(specs, fluentResultSpecs...)
 	specs = append(specs, fluentHeaderSpecs...)
+	specs = append(specs, fluentConnSpecs...)
 }
 
 // ---- the fluent builders (fluent/fluent.go)
@@ -1532,5 +1533,30 @@ var fluentHeaderSpecs = func() []fnSpec {
 		m("udpv6EncapHeader", "EhUdpHdrB", "WithSrcIP", "flHWithSrcIP", []param{str("ip")}, utm),
 		m("udpv6EncapHeader", "EhUdpHdrB", "WithSrcUDPPort", "flHWithSrcUDPPort", []param{u64("port")}, utm),
 		up,
+	}
+}()
+
+// ---- the fluent connection builder (fluent/fluent.go): the four setters that decide what the
+// client negotiates and which election id its first operations carry
+
+var fluentConnSpecs = func() []fnSpec {
+	st := []stateField{
+		{goExpr: "g.persist", lean: "persist", kd: kBool},
+		{goExpr: "g.fibACK", lean: "fibACK", kd: kBool},
+		{goExpr: "g.redundMode", lean: "redundMode", kd: kInt},
+		{goExpr: "g.electionID", lean: "electionID", kd: kPtr("Uint128")},
+		{goExpr: "g.parent.currentElectionID", lean: "curElec", kd: kPtr("Uint128")},
+	}
+	m := func(goName, lean string, params []param) fnSpec {
+		return fnSpec{
+			file: "fluent/fluent.go", goName: goName, recvType: "*gRIBIConnection", callAs: "-", leanName: lean,
+			params: params, goRets: "*gRIBIConnection", rets: []string{}, state: st, builder: true,
+		}
+	}
+	return []fnSpec{
+		m("WithPersistence", "flCWithPersistence", nil),
+		m("WithFIBACK", "flCWithFIBACK", nil),
+		m("WithRedundancyMode", "flCWithRedundancyMode", []param{{goName: "m", goType: "RedundancyMode", lean: "m", kd: kInt}}),
+		m("WithInitialElectionID", "flCWithInitialElectionID", []param{w64("low"), w64("high")}),
 	}
 }()
